@@ -694,8 +694,13 @@ class Daemon(object):
                 ser.register_type_replacement(type(obj_or_class), _pyro_obj_to_auto_proxy)
         # register the object/class in the mapping
         self.objectsById[obj_or_class._pyroId] = obj_or_class if not weak else weakref.ref(obj_or_class)
-        if weak: weakref.finalize(obj_or_class,self.unregister,objectId)
+        if weak: weakref.finalize(obj_or_class, self._unregister_collected, objectId, self.objectsById[objectId])
         return self.uriFor(objectId)
+
+    def _unregister_collected(self, objectId, ref):
+        """Finalizer of a weakly registered object: forget that registration (and no later one under the same id)."""
+        if self.objectsById.get(objectId) is ref:
+            self.unregister(objectId)
 
     def unregister(self, objectOrId):
         """
